@@ -282,7 +282,9 @@ impl<'a> Gen<'a> {
     }
     pub fn error_leaf(&mut self) -> G {
         let t = self.next_tag();
-        match self.rng.below(6) {
+        match self.rng.below(8) {
+            6 => G::Call("nofn".into(), vec![G::Atom(int_lit(t))]),
+            7 => G::Method(Box::new(G::atom("1")), "nofn".into(), vec![]),
             0 => G::Bin("/", Box::new(G::atom("1")), Box::new(G::atom("0"))),
             1 => G::Bin("+", Box::new(G::atom("9223372036854775807")), Box::new(G::atom("1"))),
             2 => G::Sel(Box::new(G::MapLit(vec![])), "k".into()),
